@@ -125,6 +125,51 @@ func runC14(c *Ctx) {
 	c.rule("R14.3", "a closure that publishes the message writer blocks until the consumer is done, and the completion signal is raised only after the consumer callback returned")
 	c.rule("R14.4", "each shared table/flag of the connection has one guarding mutex that is held at every non-construction access")
 
+	// ---- R14.7: what is encoded straight into an open message cannot fail half-way
+	c.rule("R14.7", "values of user-chosen types are marshalled before a message is opened: nothing handed to WriteJSON contains an un-marshalled parameter value")
+	{
+		n := 0
+		var hasUserValue func(t types.Type, d int) bool
+		hasUserValue = func(t types.Type, d int) bool {
+			if d > 6 {
+				return false
+			}
+			if isNamed(t, "reflect", "Value") {
+				return true
+			}
+			switch u := t.Underlying().(type) {
+			case *types.Struct:
+				for i := 0; i < u.NumFields(); i++ {
+					if hasUserValue(u.Field(i).Type(), d+1) {
+						return true
+					}
+				}
+			case *types.Slice:
+				return hasUserValue(u.Elem(), d+1)
+			case *types.Array:
+				return hasUserValue(u.Elem(), d+1)
+			case *types.Pointer:
+				return hasUserValue(u.Elem(), d+1)
+			}
+			return false
+		}
+		for _, ci := range gorillaConnCalls(p) {
+			if methodOf(ci) != "WriteJSON" {
+				continue
+			}
+			n++
+			arg := ci.Common().Args[1]
+			t := arg.Type()
+			if mi, ok := arg.(*ssa.MakeInterface); ok {
+				t = mi.X.Type()
+			}
+			c.check(!hasUserValue(t, 0), "R14.7", fmt.Sprintf("%s: value encoded into an open message", fname(ci.Parent())), c.ipos(ci), "contains only pre-marshalled parts", "a structure holding un-marshalled parameter values (reflect.Value) is encoded straight into the open message: when encoding/json refuses one of them (NaN, a failing MarshalJSON) the message has already been opened and an empty or partial, non-JSON message goes on the wire")
+		}
+		if n == 0 {
+			c.ok("R14.7", "WriteJSON", "-", "not used")
+		}
+	}
+
 	// ---- R14.1
 	var common lockSet
 	type site struct {
